@@ -49,12 +49,15 @@ fn any_zone_parts<const N: usize>() -> ([LocalTimeType; 3], [Transition; N], usi
 fn c03_plumb() {
     let (types, tr, n, ls, m, rule) = any_zone_parts::<2>();
     kani::assume(m <= 1);
-    let zone = match TimeZoneRef::new(&tr[..n], &types, &ls[..m], &rule) {
+    let t: i64 = kani::any();
+    let ns: u32 = kani::any();
+    // 1..3 local time types (a zone with a single type, transitions and no rule still has no type after its last transition)
+    let nt: usize = kani::any();
+    kani::assume(1 <= nt && nt <= 3);
+    let zone = match TimeZoneRef::new(&tr[..n], &types[..nt], &ls[..m], &rule) {
         Ok(z) => z,
         Err(_) => return,
     };
-    let t: i64 = kani::any();
-    let ns: u32 = kani::any();
     let r = DateTime::from_timespec(t, ns, zone);
     match zone.find_local_time_type(t) {
         Err(e) => assert!(matches!(&r, Err(x) if core::mem::discriminant(x) == core::mem::discriminant(&e))),
@@ -85,6 +88,68 @@ fn c03_plumb() {
     kani::cover!(r.is_ok() && n == 2);
     kani::cover!(matches!(&r, Err(TzError::OutOfRange)));
     kani::cover!(matches!(&r, Err(TzError::NoAvailableLocalTimeType)));
+    kani::cover!(matches!(&r, Err(TzError::NoAvailableLocalTimeType)) && nt == 1 && n >= 1);
+}
+
+
+// ------------------------------------------------------------------ C16: DateTime::from_total_nanoseconds(n, zone) is the (seconds, nanoseconds)
+// constructor on the FLOOR split of n - decided for every i128 count and every zone of the bound. The split itself is Engine A's
+// (C16: all i128); here it is replaced by its proven contract (the unique (s, r) with n = s*10^9 + r, 0 <= r < 10^9; OutOfRange iff s
+// does not fit i64), so that CBMC sees no 128-bit division on the unchanged tree; any other arithmetic on n that the function under
+// test performs itself (say, a truncating division used for the lookup) is executed for real.
+fn stub_split_contract(total_nanoseconds: i128) -> Result<(i64, u32), TzError> {
+    // the harness builds the count FROM its floor split (s, r), so the unique split of that count is known without dividing
+    let s = ((SPLIT_S[0].load(AO::Relaxed) as i128) << 32) | (SPLIT_S[1].load(AO::Relaxed) as i128);
+    let r = SPLIT_S[2].load(AO::Relaxed) as i128;
+    assert!(total_nanoseconds == s * 1_000_000_000 + r);
+    if s < i64::MIN as i128 || s > i64::MAX as i128 {
+        Err(TzError::OutOfRange)
+    } else {
+        Ok((s as i64, r as u32))
+    }
+}
+static SPLIT_S: [AtomicI64; 3] = [AtomicI64::new(0), AtomicI64::new(0), AtomicI64::new(0)];
+
+#[kani::proof]
+#[kani::unwind(6)]
+#[kani::stub(crate::datetime::total_nanoseconds_to_timespec, stub_split_contract)]
+#[kani::stub(crate::datetime::UtcDateTime::from_timespec, stub_from_timespec)]
+#[kani::stub(crate::timezone::RuleDay::unix_time, stub_rule_unix_time)]
+#[kani::stub(crate::timezone::AlternateTime::find_local_time_type, stub_alt_find)]
+fn c16_total_with_zone() {
+    let (types, tr, n, _ls, _m, rule) = any_zone_parts::<2>();
+    let zone = match TimeZoneRef::new(&tr[..n], &types, &[], &rule) {
+        Ok(z) => z,
+        Err(_) => return,
+    };
+    // every i128 count whose seconds lie within +-2^70 (beyond i64 on both sides), built from its own floor split
+    let s: i128 = kani::any();
+    let r: i128 = kani::any();
+    kani::assume(-(1i128 << 70) < s && s < (1i128 << 70));
+    kani::assume(0 <= r && r < 1_000_000_000);
+    let total = s * 1_000_000_000 + r;
+    SPLIT_S[0].store((s >> 32) as i64, AO::Relaxed);
+    SPLIT_S[1].store((s & 0xffff_ffff) as i64, AO::Relaxed);
+    SPLIT_S[2].store(r as i64, AO::Relaxed);
+    let got = DateTime::from_total_nanoseconds(total, zone);
+    if s < i64::MIN as i128 || s > i64::MAX as i128 {
+        assert!(matches!(&got, Err(TzError::OutOfRange)));
+        return;
+    }
+    let want = DateTime::from_timespec(s as i64, r as u32, zone);
+    match (&got, &want) {
+        (Ok(a), Ok(b)) => {
+            assert!(a.unix_time == s as i64 && a.nanoseconds == r as u32);
+            assert!(a.unix_time == b.unix_time && a.nanoseconds == b.nanoseconds);
+            assert!(a.local_time_type.ut_offset() == b.local_time_type.ut_offset() && a.local_time_type.is_dst() == b.local_time_type.is_dst());
+            assert!(packed_is(a, (s + b.local_time_type.ut_offset() as i128) as i64));
+            assert!(a.total_nanoseconds() == total);
+        }
+        (Err(x), Err(y)) => assert!(core::mem::discriminant(x) == core::mem::discriminant(y)),
+        _ => assert!(false),
+    }
+    kani::cover!(got.is_ok() && total < 0 && r != 0 && n == 2);
+    kani::cover!(matches!(&got, Err(TzError::NoAvailableLocalTimeType)));
 }
 
 /// C14: equality and ordering depend only on (unix_time, nanoseconds), for arbitrary (even inconsistent) field values
@@ -147,6 +212,10 @@ fn searched_fields(d: &DateTime) -> bool {
 }
 
 fn search_body<const N: usize, const L: usize, const BUF: usize, const R: bool>(c05: bool, c06: bool) {
+    search_body_inv::<N, L, BUF, R>(c05, c06, false)
+}
+
+fn search_body_inv<const N: usize, const L: usize, const BUF: usize, const R: bool>(c05: bool, c06: bool, c14: bool) {
     let c: i64 = kani::any();
     kani::assume(MIN_T <= c && c <= MAX_T + 1);
     CIVIL.store(c, AO::Relaxed);
@@ -171,7 +240,11 @@ fn search_body<const N: usize, const L: usize, const BUF: usize, const R: bool>(
             q += 1;
         }
     }
-    let mut buf: [Option<FoundDateTimeKind>; BUF] = [None; BUF];
+    // the caller's buffer is NOT fresh: every slot holds a stale entry of an earlier search (at one of the two extreme instants), so
+    // that unique/earliest/latest reading anything but the slots written by THIS search is visible
+    let stale_t = if kani::any() { i64::MIN } else { i64::MAX };
+    let stale = DateTime { year: 1, month: 1, month_day: 1, hour: 0, minute: 0, second: 0, local_time_type: types[0], unix_time: stale_t, nanoseconds: 0 };
+    let mut buf: [Option<FoundDateTimeKind>; BUF] = [Some(FoundDateTimeKind::Normal(stale)); BUF];
     let list = match DateTime::find_n(&mut buf, Y, 1, 1, 0, 0, 0, NS, zone) {
         Ok(l) => l,
         Err(e) => {
@@ -185,6 +258,9 @@ fn search_body<const N: usize, const L: usize, const BUF: usize, const R: bool>(
     assert!(data.len() == k);
     kani::cover!(k >= N);
     kani::cover!(k == 0);
+    if k == 0 {
+        assert!(list.unique().is_none() && list.earliest().is_none() && list.latest().is_none());
+    }
     let i: usize = kani::any();
     kani::assume(i < k);
     let ei = match &data[i] {
@@ -194,6 +270,26 @@ fn search_body<const N: usize, const L: usize, const BUF: usize, const R: bool>(
             return;
         }
     };
+    if c14 {
+        // C14 invariant on every entry the search hands out: fields are those of (unix_time + offset); Normal entries carry the
+        // searched fields, gap entries are the packed (S_pack) fields of the transition instant on either clock
+        match ei {
+            FoundDateTimeKind::Normal(dt) => {
+                assert!(searched_fields(dt));
+                assert!(dt.unix_time as i128 + dt.local_time_type.ut_offset() as i128 == c as i128);
+            }
+            FoundDateTimeKind::Skipped { before_transition: b, after_transition: a } => {
+                assert!(a.unix_time == b.unix_time && b.nanoseconds == NS && a.nanoseconds == NS);
+                assert!(packed_is(b, (b.unix_time as i128 + b.local_time_type.ut_offset() as i128) as i64));
+                assert!(packed_is(a, (a.unix_time as i128 + a.local_time_type.ut_offset() as i128) as i64));
+            }
+        }
+        kani::cover!(matches!(ei, FoundDateTimeKind::Normal(_)) && m == 1 && ls[0].unix_leap_time() < c);
+        if R || N > 1 {
+            // (without a trailing rule the last transition's gap is not reported, so a single-transition table has no gap entries)
+            kani::cover!(matches!(ei, FoundDateTimeKind::Skipped { .. }));
+        }
+    }
     if c05 {
         // soundness: a valid result is an instant at which the zone's clock shows the searched fields, with that type
         if let FoundDateTimeKind::Normal(dt) = ei {
@@ -322,6 +418,28 @@ search_harness!(c06_table_n2, 2, 0, false, true, 6, true);
 search_harness!(c06_table_n3, 3, 0, false, true, 7, true);
 search_harness!(c06_table_leap1_n2, 2, 1, false, true, 6, true);
 search_harness!(c05_table_leap1_norule_n2, 2, 1, true, false, 6, false);
+
+// C14: the invariant of every date-time the search hands out, on zones WITH a leap-second table (the table walk converts between
+// the two time scales; an entry built from the wrong scale keeps the searched fields but not the instant)
+#[kani::proof]
+#[kani::unwind(5)]
+#[kani::stub(crate::datetime::unix_time, stub_unix_time)]
+#[kani::stub(crate::datetime::UtcDateTime::from_timespec, stub_from_timespec)]
+#[kani::stub(crate::timezone::RuleDay::unix_time, stub_rule_unix_time)]
+#[kani::stub(crate::timezone::AlternateTime::find_local_time_type, stub_alt_find)]
+fn c14_search_entries_leap1_norule_n1() {
+    search_body_inv::<1, 1, 3, false>(false, false, true);
+}
+
+#[kani::proof]
+#[kani::unwind(5)]
+#[kani::stub(crate::datetime::unix_time, stub_unix_time)]
+#[kani::stub(crate::datetime::UtcDateTime::from_timespec, stub_from_timespec)]
+#[kani::stub(crate::timezone::RuleDay::unix_time, stub_rule_unix_time)]
+#[kani::stub(crate::timezone::AlternateTime::find_local_time_type, stub_alt_find)]
+fn c14_search_entries_leap1_fixed_n1() {
+    search_body_inv::<1, 1, 3, true>(false, false, true);
+}
 search_harness!(c06_table_leap1_norule_n2, 2, 1, false, true, 6, false);
 
 // ------------------------------------------------------------------ C17
@@ -470,13 +588,17 @@ use core::sync::atomic::AtomicI32;
 static ABS_BASE: AtomicI32 = AtomicI32::new(0);
 static ABS_J: [AtomicI64; 6] = [AtomicI64::new(0), AtomicI64::new(0), AtomicI64::new(0), AtomicI64::new(0), AtomicI64::new(0), AtomicI64::new(0)];
 static ABS_S: [AtomicI64; 5] = [AtomicI64::new(0), AtomicI64::new(0), AtomicI64::new(0), AtomicI64::new(0), AtomicI64::new(0)];
+static ABS_DT: [AtomicI64; 2] = [AtomicI64::new(0), AtomicI64::new(0)];
 static ABS_E: [AtomicI64; 5] = [AtomicI64::new(0), AtomicI64::new(0), AtomicI64::new(0), AtomicI64::new(0), AtomicI64::new(0)];
 
 /// S_ruleday: start day is the (arbitrary, fixed) marker J1, end day the marker J2; the instant is the abstract table entry of that year
-fn stub_rule_abs(d: &RuleDay, year: i32, _dt: i64) -> i64 {
+fn stub_rule_abs(d: &RuleDay, year: i32, dt: i64) -> i64 {
     let k = year as i64 - ABS_BASE.load(AO::Relaxed) as i64 + 2;
     assert!(0 <= k && k < 5);
     let is_start = matches!(d, RuleDay::Julian1WithoutLeap(x) if x.get() == 1);
+    // the abstract instants were chosen for these day times (K1 is stated relative to them): every caller must pass exactly
+    // "start time on the standard clock" / "end time on the daylight clock", converted to UTC
+    assert!(dt == if is_start { ABS_DT[0].load(AO::Relaxed) } else { ABS_DT[1].load(AO::Relaxed) });
     if is_start {
         ABS_S[k as usize].load(AO::Relaxed)
     } else {
@@ -505,6 +627,12 @@ const DAY: i64 = 86400;
 const DTMAX: i64 = 7 * DAY + 26 * 3600;
 
 fn abs_rule_body(c05: bool, c06: bool) {
+    abs_rule_body_split(c05, c06, 0, 255)
+}
+
+/// pat: 0 = any accepted pattern, 1 = strictly northern, 2 = strictly southern, 3 = start/end coincide in every year;
+/// part (bit mask): 1 soundness, 2 completeness + unique, 4 reported gap is real, 8 real gap is reported, 16 earliest, 32 order
+fn abs_rule_body_split(c05: bool, c06: bool, pat: u8, part: u8) {
     let base: i32 = kani::any();
     kani::assume(i32::MIN + 4 <= base && base <= i32::MAX - 4);
     ABS_BASE.store(base, AO::Relaxed);
@@ -532,6 +660,8 @@ fn abs_rule_body(c05: bool, c06: bool) {
     kani::assume(-7 * 86400 < st && st < 7 * 86400 && -7 * 86400 < et && et < 7 * 86400);
     let su = st as i64 - std.ut_offset() as i64;
     let eu = et as i64 - dst.ut_offset() as i64;
+    ABS_DT[0].store(su, AO::Relaxed);
+    ABS_DT[1].store(eu, AO::Relaxed);
     // rule-day instants of the years base-2 .. base+2: K1 (within the year, shifted by the UTC day time) and K2 (364..371 days apart)
     let s: [i64; 5] = kani::any();
     let e: [i64; 5] = kani::any();
@@ -575,6 +705,12 @@ fn abs_rule_body(c05: bool, c06: bool) {
     kani::assume(north || south);
     // known finding F2 (role dst-rule-tie-year): start and end coincide in some but not all of the years consulted
     kani::assume(ties == 0 || ties == 5);
+    match pat {
+        1 => kani::assume(north && ties == 0),
+        2 => kani::assume(south && ties == 0),
+        3 => kani::assume(ties == 5),
+        _ => {}
+    }
     let c: i64 = kani::any();
     kani::assume(j[2] <= c && c < j[3]);
     CIVIL.store(c, AO::Relaxed);
@@ -616,7 +752,7 @@ fn abs_rule_body(c05: bool, c06: bool) {
         }
     };
     if c05 {
-        if let FoundDateTimeKind::Normal(dt) = ei {
+        if let (FoundDateTimeKind::Normal(dt), true) = (ei, part & 1 != 0) {
             assert!(dt.year == base && dt.month == 1 && dt.month_day == 1 && dt.nanoseconds == NS);
             assert!(dt.unix_time + dt.local_time_type.ut_offset() as i64 == c);
             match zone.find_local_time_type(dt.unix_time) {
@@ -626,7 +762,7 @@ fn abs_rule_body(c05: bool, c06: bool) {
         }
         let u: i64 = kani::any();
         kani::assume(j[1] <= u && u < j[4]);
-        if let Ok(l) = zone.find_local_time_type(u) {
+        if let (Ok(l), true) = (zone.find_local_time_type(u), part & 2 != 0) {
             if u + l.ut_offset() as i64 == c {
                 let mut found = false;
                 let mut q = 0;
@@ -641,11 +777,13 @@ fn abs_rule_body(c05: bool, c06: bool) {
                 assert!(found);
             }
         }
-        assert!(list.unique().is_some() == (k == 1 && matches!(&data[0], Some(FoundDateTimeKind::Normal(_)))));
-        kani::cover!(matches!(ei, FoundDateTimeKind::Normal(_)) && south && !north);
+        if part & 2 != 0 {
+            assert!(list.unique().is_some() == (k == 1 && matches!(&data[0], Some(FoundDateTimeKind::Normal(_)))));
+        }
+        kani::cover!(matches!(ei, FoundDateTimeKind::Normal(_)) && (pat == 1 || pat == 3 || (south && !north)));
     }
     if c06 {
-        if let FoundDateTimeKind::Skipped { before_transition: b, after_transition: a } = ei {
+        if let (FoundDateTimeKind::Skipped { before_transition: b, after_transition: a }, true) = (ei, part & 4 != 0) {
             let t = b.unix_time;
             let (ob, oa) = (b.local_time_type.ut_offset() as i64, a.local_time_type.ut_offset() as i64);
             assert!(a.unix_time == t && ob < oa && t + ob <= c && c < t + oa);
@@ -657,7 +795,8 @@ fn abs_rule_body(c05: bool, c06: bool) {
         kani::assume(1 <= g && g <= 3);
         let which: bool = kani::any();
         let t = if which { s[g] } else { e[g] };
-        if let (Ok(lb), Ok(la)) = (zone.find_local_time_type(t - 1), zone.find_local_time_type(t)) {
+        if part & 8 == 0 {
+        } else if let (Ok(lb), Ok(la)) = (zone.find_local_time_type(t - 1), zone.find_local_time_type(t)) {
             let (ob, oa) = (lb.ut_offset() as i64, la.ut_offset() as i64);
             if ob < oa && t + ob <= c && c < t + oa {
                 let mut found = false;
@@ -677,11 +816,13 @@ fn abs_rule_body(c05: bool, c06: bool) {
             Some(x) => entry_instant(x),
             None => 0,
         };
-        assert!(matches!(list.earliest(), Some(d) if d.unix_time == first && first <= entry_instant(ei)));
-        kani::cover!(matches!(ei, FoundDateTimeKind::Skipped { .. }));
+        if part & 16 != 0 {
+            assert!(matches!(list.earliest(), Some(d) if d.unix_time == first && first <= entry_instant(ei)));
+        }
+        kani::cover!(pat == 3 || matches!(ei, FoundDateTimeKind::Skipped { .. }));
     }
     let jx: usize = kani::any();
-    if jx < k && i < jx {
+    if part & 32 != 0 && jx < k && i < jx {
         if let Some(ej) = &data[jx] {
             assert!(entry_instant(ei) <= entry_instant(ej));
             if matches!(ei, FoundDateTimeKind::Normal(_)) && matches!(ej, FoundDateTimeKind::Normal(_)) {
@@ -710,6 +851,273 @@ fn c05_rule_abstract() {
 #[kani::stub(crate::timezone::RuleDay::unix_time, stub_rule_abs)]
 fn c06_rule_abstract() {
     abs_rule_body(false, true);
+}
+
+
+macro_rules! rulearm {
+    ($name:ident, $c05:expr, $c06:expr, $pat:expr, $part:expr) => {
+        #[kani::proof]
+        #[kani::unwind(9)]
+        #[kani::stub(crate::datetime::unix_time, stub_unix_time)]
+        #[kani::stub(crate::datetime::UtcDateTime::from_timespec, stub_year_abs)]
+        #[kani::stub(crate::timezone::RuleDay::unix_time, stub_rule_abs)]
+        fn $name() {
+            abs_rule_body_split($c05, $c06, $pat, $part);
+        }
+    };
+}
+// quick-tier split of the two harnesses above: one interleaving pattern and one assertion group per harness
+rulearm!(c05_rulearm_north_sound, true, false, 1, 1 | 32);
+rulearm!(c05_rulearm_north_complete, true, false, 1, 2);
+rulearm!(c05_rulearm_south_sound, true, false, 2, 1 | 32);
+rulearm!(c05_rulearm_south_complete, true, false, 2, 2);
+rulearm!(c05_rulearm_tied_all, true, false, 3, 1 | 2 | 32);
+rulearm!(c06_rulearm_north_reported, false, true, 1, 4 | 16 | 32);
+rulearm!(c06_rulearm_north_converse, false, true, 1, 8);
+rulearm!(c06_rulearm_south_reported, false, true, 2, 4 | 16 | 32);
+rulearm!(c06_rulearm_south_converse, false, true, 2, 8);
+rulearm!(c06_rulearm_tied_all, false, true, 3, 4 | 8 | 16 | 32);
+
+
+// ------------------------------------------------------------------ quick tier: the search's DST-rule arm against the SPECIFICATION of the forward
+// lookup (C04: on DST exactly in [S(k), E(k)) for northern rules, [S(k), E(k+1)) for southern ones - decided for the real lookup on the
+// real rule-day arithmetic by Engine A) instead of against the real lookup: no year computation, no decision tree, three abstract years.
+// Assume-guarantee: search == spec here, lookup == spec in C04, hence search == lookup (which the thorough *_rule_abstract harnesses
+// also decide directly). Same contracts K1/K2 on the abstract instants; the same role F2 is excluded (start == end in some years only).
+static SP_S: [AtomicI64; 3] = [AtomicI64::new(0), AtomicI64::new(0), AtomicI64::new(0)];
+static SP_E: [AtomicI64; 3] = [AtomicI64::new(0), AtomicI64::new(0), AtomicI64::new(0)];
+
+fn stub_rule_spec3(d: &RuleDay, year: i32, dt: i64) -> i64 {
+    let k = year as i64 - ABS_BASE.load(AO::Relaxed) as i64 + 1;
+    assert!(0 <= k && k < 3);
+    let is_start = matches!(d, RuleDay::Julian1WithoutLeap(x) if x.get() == 1);
+    assert!(dt == if is_start { ABS_DT[0].load(AO::Relaxed) } else { ABS_DT[1].load(AO::Relaxed) });
+    if is_start {
+        SP_S[k as usize].load(AO::Relaxed)
+    } else {
+        SP_E[k as usize].load(AO::Relaxed)
+    }
+}
+
+/// the C04 specification on three consecutive years of start/end instants, for instants within the middle year +- 2 days
+fn spec_is_dst(s: &[i64; 3], e: &[i64; 3], north: bool, u: i64) -> bool {
+    if north {
+        (s[0] <= u && u < e[0]) || (s[1] <= u && u < e[1]) || (s[2] <= u && u < e[2])
+    } else {
+        u < e[0] || (s[0] <= u && u < e[1]) || (s[1] <= u && u < e[2]) || s[2] <= u
+    }
+}
+
+fn rule_spec_body(c05: bool, c06: bool, narrow: bool) {
+    let base: i32 = kani::any();
+    kani::assume(i32::MIN + 4 <= base && base <= i32::MAX - 4);
+    ABS_BASE.store(base, AO::Relaxed);
+    // 1 January of the years base-1 .. base+2 (K4: 365 or 366 days each)
+    // narrow: the year before the searched one starts at a fixed instant (the search's rule arm compares differences of instants only;
+    // range checks at the ends of the supported range are decided by the table harnesses and by the wide variant in the thorough tier)
+    let j0: i64 = if narrow { 946684800 } else { kani::any() };
+    kani::assume(MIN_T + 800 * DAY <= j0 && j0 <= MAX_T - 2000 * DAY);
+    let mut j = [j0; 4];
+    let mut i = 1;
+    while i < 4 {
+        let leap: bool = kani::any();
+        j[i] = j[i - 1] + if leap { 366 * DAY } else { 365 * DAY };
+        i += 1;
+    }
+    let std = any_ltt();
+    let dst = any_ltt();
+    kani::assume(-25 * 3600 < std.ut_offset() && std.ut_offset() < 26 * 3600 && -25 * 3600 < dst.ut_offset() && dst.ut_offset() < 26 * 3600);
+    kani::assume(std.ut_offset() != dst.ut_offset());
+    let st: i32 = kani::any();
+    let et: i32 = kani::any();
+    kani::assume(-7 * 86400 < st && st < 7 * 86400 && -7 * 86400 < et && et < 7 * 86400);
+    let su = st as i64 - std.ut_offset() as i64;
+    let eu = et as i64 - dst.ut_offset() as i64;
+    ABS_DT[0].store(su, AO::Relaxed);
+    ABS_DT[1].store(eu, AO::Relaxed);
+    let s: [i64; 3] = kani::any();
+    let e: [i64; 3] = kani::any();
+    i = 0;
+    while i < 3 {
+        kani::assume(j[i] + su <= s[i] && s[i] <= j[i] + 365 * DAY + su);
+        kani::assume(j[i] + eu <= e[i] && e[i] <= j[i] + 365 * DAY + eu);
+        if i > 0 {
+            kani::assume(364 * DAY <= s[i] - s[i - 1] && s[i] - s[i - 1] <= 371 * DAY);
+            kani::assume(364 * DAY <= e[i] - e[i - 1] && e[i] - e[i - 1] <= 371 * DAY);
+        }
+        SP_S[i].store(s[i], AO::Relaxed);
+        SP_E[i].store(e[i], AO::Relaxed);
+        i += 1;
+    }
+    let north = s[0] <= e[0] && e[0] <= s[1] && s[1] <= e[1] && e[1] <= s[2] && s[2] <= e[2];
+    let south = e[0] <= s[0] && s[0] <= e[1] && e[1] <= s[1] && s[1] <= e[2] && e[2] <= s[2];
+    kani::assume(north || south);
+    let ties = (s[0] == e[0]) as u8 + (s[1] == e[1]) as u8 + (s[2] == e[2]) as u8;
+    // known finding F2 (role dst-rule-tie-year): start and end coincide in some but not all of the years the search consults.
+    // Coinciding in all of them: both patterns hold and C04 leaves the type open; the forward lookup reads such rules as northern.
+    kani::assume(ties == 0 || ties == 3);
+    let c: i64 = kani::any();
+    kani::assume(j[1] <= c && c < j[2]);
+    CIVIL.store(c, AO::Relaxed);
+    let alt = crate::timezone::verif_kani::raw_alt(
+        std,
+        dst,
+        RuleDay::Julian1WithoutLeap(Julian1WithoutLeap::new(1).unwrap()),
+        st,
+        RuleDay::Julian1WithoutLeap(Julian1WithoutLeap::new(2).unwrap()),
+        et,
+    );
+    let types = [std, dst];
+    let rule = Some(TransitionRule::Alternate(alt));
+    let zone = match TimeZoneRef::new(&[], &types, &[], &rule) {
+        Ok(z) => z,
+        Err(_) => return,
+    };
+    let stale_t = if kani::any() { i64::MIN } else { i64::MAX };
+    let stale = DateTime { year: 1, month: 1, month_day: 1, hour: 0, minute: 0, second: 0, local_time_type: std, unix_time: stale_t, nanoseconds: 0 };
+    let mut buf: [Option<FoundDateTimeKind>; 5] = [Some(FoundDateTimeKind::Normal(stale)); 5];
+    let list = match DateTime::find_n(&mut buf, base, 1, 1, 0, 0, 0, NS, zone) {
+        Ok(l) => l,
+        Err(_) => {
+            assert!(false);
+            return;
+        }
+    };
+    let k = list.count();
+    assert!(list.is_exhaustive());
+    let data = list.data();
+    assert!(k >= 1 && k <= 3 && data.len() == k);
+    kani::cover!(k == 1);
+    kani::cover!(k == 2);
+    let off_at = |u: i64| if spec_is_dst(&s, &e, north, u) { dst.ut_offset() as i64 } else { std.ut_offset() as i64 };
+    let i: usize = kani::any();
+    kani::assume(i < k);
+    let ei = match &data[i] {
+        Some(x) => x,
+        None => {
+            assert!(false);
+            return;
+        }
+    };
+    if c05 {
+        if let FoundDateTimeKind::Normal(dt) = ei {
+            assert!(dt.year == base && dt.month == 1 && dt.month_day == 1 && dt.hour == 0 && dt.minute == 0 && dt.second == 0 && dt.nanoseconds == NS);
+            assert!(dt.unix_time + dt.local_time_type.ut_offset() as i64 == c);
+            let on_dst = spec_is_dst(&s, &e, north, dt.unix_time);
+            assert!(dt.local_time_type.ut_offset() == if on_dst { dst.ut_offset() } else { std.ut_offset() });
+            assert!(dt.local_time_type.is_dst() == if on_dst { dst.is_dst() } else { std.is_dst() });
+        }
+        // completeness: both candidate instants (civil count minus either offset) are examined against the specification
+        let u = if kani::any() { c - std.ut_offset() as i64 } else { c - dst.ut_offset() as i64 };
+        if u + off_at(u) == c {
+            let mut found = false;
+            let mut q = 0;
+            while q < k {
+                if let Some(FoundDateTimeKind::Normal(d)) = &data[q] {
+                    if d.unix_time == u {
+                        found = true;
+                    }
+                }
+                q += 1;
+            }
+            assert!(found);
+        }
+        assert!(list.unique().is_some() == (k == 1 && matches!(&data[0], Some(FoundDateTimeKind::Normal(_)))));
+        kani::cover!(matches!(ei, FoundDateTimeKind::Normal(_)) && south && !north);
+        kani::cover!(matches!(ei, FoundDateTimeKind::Normal(_)) && north && !south && k == 2);
+    }
+    if c06 {
+        if let FoundDateTimeKind::Skipped { before_transition: b, after_transition: a } = ei {
+            let t = b.unix_time;
+            let (ob, oa) = (b.local_time_type.ut_offset() as i64, a.local_time_type.ut_offset() as i64);
+            assert!(a.unix_time == t && ob < oa && t + ob <= c && c < t + oa);
+            assert!(b.nanoseconds == NS && a.nanoseconds == NS);
+            // the clock really jumps at t, from the before-clock to the after-clock
+            assert!(off_at(t - 1) == ob && off_at(t) == oa);
+            assert!(packed_is(b, t + ob) && packed_is(a, t + oa));
+        }
+        // conversely: a forward jump of the rule containing the searched local time is reported
+        let g: usize = kani::any();
+        kani::assume(g < 3);
+        let t = if kani::any() { s[g] } else { e[g] };
+        let (ob, oa) = (off_at(t - 1), off_at(t));
+        if ob < oa && t + ob <= c && c < t + oa {
+            let mut found = false;
+            let mut q = 0;
+            while q < k {
+                if let Some(FoundDateTimeKind::Skipped { before_transition, .. }) = &data[q] {
+                    if before_transition.unix_time == t {
+                        found = true;
+                    }
+                }
+                q += 1;
+            }
+            assert!(found);
+        }
+        let first = match &data[0] {
+            Some(x) => entry_instant(x),
+            None => 0,
+        };
+        let last = match &data[k - 1] {
+            Some(x) => entry_instant(x),
+            None => 0,
+        };
+        assert!(matches!(list.earliest(), Some(d) if d.unix_time == first && first <= entry_instant(ei)));
+        assert!(matches!(list.latest(), Some(d) if d.unix_time == last && last >= entry_instant(ei)));
+        kani::cover!(matches!(ei, FoundDateTimeKind::Skipped { .. }));
+    }
+    let jx: usize = kani::any();
+    if jx < k && i < jx {
+        if let Some(ej) = &data[jx] {
+            assert!(entry_instant(ei) <= entry_instant(ej));
+            if matches!(ei, FoundDateTimeKind::Normal(_)) && matches!(ej, FoundDateTimeKind::Normal(_)) {
+                assert!(entry_instant(ei) < entry_instant(ej));
+            }
+            if ties == 0 {
+                assert!(entry_instant(ei) < entry_instant(ej));
+            }
+        }
+    }
+}
+
+#[kani::proof]
+#[kani::unwind(9)]
+#[kani::stub(crate::datetime::unix_time, stub_unix_time)]
+#[kani::stub(crate::datetime::UtcDateTime::from_timespec, stub_from_timespec)]
+#[kani::stub(crate::timezone::RuleDay::unix_time, stub_rule_spec3)]
+#[kani::stub(crate::timezone::AlternateTime::find_local_time_type, stub_alt_find)]
+fn c05_rulespec_search() {
+    rule_spec_body(true, false, true);
+}
+
+#[kani::proof]
+#[kani::unwind(9)]
+#[kani::stub(crate::datetime::unix_time, stub_unix_time)]
+#[kani::stub(crate::datetime::UtcDateTime::from_timespec, stub_from_timespec)]
+#[kani::stub(crate::timezone::RuleDay::unix_time, stub_rule_spec3)]
+#[kani::stub(crate::timezone::AlternateTime::find_local_time_type, stub_alt_find)]
+fn c06_rulespec_search() {
+    rule_spec_body(false, true, true);
+}
+
+#[kani::proof]
+#[kani::unwind(9)]
+#[kani::stub(crate::datetime::unix_time, stub_unix_time)]
+#[kani::stub(crate::datetime::UtcDateTime::from_timespec, stub_from_timespec)]
+#[kani::stub(crate::timezone::RuleDay::unix_time, stub_rule_spec3)]
+#[kani::stub(crate::timezone::AlternateTime::find_local_time_type, stub_alt_find)]
+fn c05_rulespec_wide_search() {
+    rule_spec_body(true, false, false);
+}
+
+#[kani::proof]
+#[kani::unwind(9)]
+#[kani::stub(crate::datetime::unix_time, stub_unix_time)]
+#[kani::stub(crate::datetime::UtcDateTime::from_timespec, stub_from_timespec)]
+#[kani::stub(crate::timezone::RuleDay::unix_time, stub_rule_spec3)]
+#[kani::stub(crate::timezone::AlternateTime::find_local_time_type, stub_alt_find)]
+fn c06_rulespec_wide_search() {
+    rule_spec_body(false, true, false);
 }
 
 // ------------------------------------------------------------------ C17, compositional: the generic search can only `push` into its list
